@@ -21,6 +21,7 @@ import ast
 import math
 
 from ..absval import eval_pred, orderings
+from ..normalize import canon, expand_bool_locals
 from ..core import (AnalysisError, call_name, const_str, dotted, find_calls,
                     is_self_attr, kwarg, last_attr, names_in, short, txt,
                     walk, subscript_key)
@@ -243,12 +244,16 @@ def r32(ctx, repo, upd):
         raise AnalysisError("Filter.update: bound variables lost")
     lo_n, hi_n = list(lo)[0], list(hi)[0]
     # activity predicate
-    mbf = _assigned_from(upd, lambda v: isinstance(v, ast.BoolOp)
-                         and any(isinstance(c, ast.Compare) and is_cfg_sub(
-                             c.left, fstart) for c in ast.walk(v)))
+    def is_activity(v):
+        v = expand_bool_locals(upd, v)
+        return isinstance(v, ast.BoolOp) and any(
+            isinstance(c, ast.Compare) and is_cfg_sub(c.left, fstart)
+            for c in ast.walk(v))
+    mbf = _assigned_from(upd, is_activity)
     if len(mbf) != 1:
         raise AnalysisError("Filter.update: activity predicate lost")
     mname, mnode = list(mbf.items())[0]
+    mvalue = expand_bool_locals(upd, mnode.value)
 
     def res_active(node):
         if isinstance(node, ast.Subscript) and is_cfg_sub(node, fstart):
@@ -263,12 +268,12 @@ def r32(ctx, repo, upd):
     for env in orderings(["lo", "hi"]):
         e = dict(env)
         e["present"] = True
-        got = bool(eval_pred(mnode.value, e, res_active))
+        got = bool(eval_pred(mvalue, e, res_active))
         want = env["lo"] != env["hi"]
         if got != want:
             bad.append((env, got))
     e = {"lo": 0.0, "hi": 1.0, "present": False}
-    if eval_pred(mnode.value, e, res_active):
+    if eval_pred(mvalue, e, res_active):
         bad.append(("missing key", True))
     ctx.ob("R3.2", not bad,
            "a range is active exactly when both bounds are set and differ "
@@ -835,7 +840,8 @@ def r36(ctx, repo):
                 keys.append(const_str(item.elts[0]))
     if not keys:
         raise AnalysisError("CFG_ANALYSIS['filtering'] could not be folded")
-    dv = repo.func(CONF, "Configuration._init_default_filter_values")
+    dv = canon(repo, CONF, repo.func(
+        CONF, "Configuration._init_default_filter_values"))
     assigned = {}
     sec_alias = {n.targets[0].id for n in walk(dv)
                  if isinstance(n, ast.Assign) and isinstance(
@@ -881,7 +887,8 @@ def run(ctx):
              "write-back", minimum=5)
     ctx.rule("R3.6", "reset clears all memo state and restores neutral "
              "defaults, hierarchy parent kept", minimum=15)
-    upd = repo.func(FILT, "Filter.update")
+    upd = canon(repo, FILT, repo.func(FILT, "Filter.update"),
+                keep=("_get_rw_array", "_init_rtdc_ds"))
     r31(ctx, repo, upd)
     r32(ctx, repo, upd)
     r33(ctx, repo, upd)
